@@ -364,7 +364,9 @@ def _(cx, r):
     if r.random() < 0.4:
         # coordinates that are whole metres, as floats / integers / a list of integers
         return Call('transform.ecef_to_lla[whole metres]', transform.ecef_to_lla,
-                    [Arg(np.round(r_e), 'wholes')])
+                    [Arg(np.round(r_e) + 0.0, 'wholes')])   # (+ 0.0: no negative zeros -
+        # an integer form cannot carry one, and atan2(-0.0, -x) = -180 deg vs
+        # atan2(0, -x) = +180 deg on the antimeridian would be a difference of the INPUT)
     return Call('transform.ecef_to_lla', transform.ecef_to_lla, [Arg(r_e, 'plain')],
                 row0=False)
 
